@@ -7,6 +7,7 @@ CONSTANTS Kinds <- K3
  TrimThreshold = 3
  GuardGeneration = "either"
  ShareRefs = FALSE
+ OnFetchError = "either"
 CONSTRAINT Mark
 ACTION_CONSTRAINT ActOK
 POSTCONDITION Report
